@@ -11,4 +11,12 @@ CHECKS = {
         "note": TRUST + "The session object is built without __init__ (no I/O); a slot value 0 stands for both 'nothing received' and 'packet 0 received'.",
     },
 }
+CHECKS["C11"] = {
+    "technique": "symbolic execution of calculate_checksum_tcp/udp and ones_complement_checksum on packets parsed by the real Packet class; verdict compared with the RFC 1071 receiver rule by z3",
+    "text": "For every IPv4/IPv6 address pair and every byte of a TCP or UDP segment of the stated lengths (odd and even), z3 shows "
+            "that the checksum routines return without exception and accept exactly the packets whose RFC 1071 receiver sum is "
+            "0xffff; every carry/fold boundary (sums of exactly 0x10000, fields 0x0000/0xffff) is inside the symbolic domain.",
+    "note": TRUST + "dpkt is replaced by a spec-level parser (tlv/models/dpkt_model.py), compared with real dpkt on every replayed/validated frame. "
+            "UDP checksum field 0 is outside the claim. Segment lengths are bounded as listed in the evidence.",
+}
 NOT_APPLICABLE = {}
